@@ -223,6 +223,9 @@ def h_row(ctx, idx):
         ctx.prove(E.not_(legal), "legal arguments rejected: %r" % (c,), key=tag + "/legal-rejected")
         return "reject:" + type(c).__name__
     ctx.prove(legal, "illegal arguments accepted (truncated into a frame)", key=tag + "/illegal-accepted")
+    # what was decoded just before must not matter: a frame announcing any device type, and a 24-bit frame
+    call(C.from_frame, F.ForwardFrame(24, 0xFFFE30))
+    call(C.from_frame, F.ForwardFrame(16, 0xC100 | ctx.fresh("prime_dt", 0, 255)))
     st, d = call(C.from_frame, c.frame, devicetype=cls.devicetype)
     if st == "exc":
         ctx.fail("decode of the constructed frame raised %r" % (d,), key=tag + "/decode-raised")
